@@ -24,7 +24,9 @@ EXTENDS Integers, Sequences, FiniteSets, TLC
 \* document, whose schemes no selected operation may name itself.
 \* autoconf: generate server --implementation-package - the generated auto_configure file wires the
 \* authenticators (and handlers) of a backend package: the same requirements are enforced through that wiring
-Selection == {"all", "tagged", "autoconf"}
+\* regenerated: the server is generated into a target that already holds the server of an EARLIER REVISION of
+\* the document (same operations, other requirements): what is enforced afterwards is the current document
+Selection == {"all", "tagged", "autoconf", "regenerated"}
 
 CONSTANTS Schemes,        \* scheme names
           Missing         \* schemes whose authenticator is absent from AuthenticatorsFor ({} in the real design)
